@@ -3,6 +3,9 @@ import LzmaVerif.Model.Lzip
 import LzmaVerif.Model.XzInt
 import LzmaVerif.Model.LzmaStream
 import LzmaVerif.Model.Lzma2
+import LzmaVerif.Model.Filters
+import LzmaVerif.Model.Xz
+import LzmaVerif.Model.LzipFile
 /-! Request handlers: each maps a parsed request to the canonical answer line. -/
 namespace Driver
 open LzmaVerif
@@ -82,8 +85,59 @@ def handleLzma2Dec (a : Args) : String :=
     | .capped => "capped"
   | _, _, _, _ => "bad-op"
 
+def archOf (s : String) : Option Filters.Arch :=
+  match s with
+  | "x86" => some .x86 | "ppc" => some .ppc | "ia64" => some .ia64 | "arm" => some .arm
+  | "armthumb" => some .armThumb | "sparc" => some .sparc | "arm64" => some .arm64 | "riscv" => some .riscv
+  | _ => none
+
+def handleFilter (cmd : String) (a : Args) : String :=
+  match a.bytes? "in" with
+  | none => "bad-op"
+  | some inp =>
+    match cmd with
+    | "bcj.code" =>
+      (match (a.get? "arch").bind archOf, a.nat? "enc", a.nat? "start" with
+       | some arch, some enc, some start =>
+         let out := Filters.oneShot arch (enc == 1) start inp
+         s!"ok {out.length} {fnv out}"
+       | _, _, _ => "bad-op")
+    | "delta.enc" => (match a.nat? "dist" with
+       | some d => let out := Filters.deltaEncode d inp; s!"ok {out.length} {fnv out}"
+       | none => "bad-op")
+    | "delta.dec" => (match a.nat? "dist" with
+       | some d => let out := Filters.deltaDecode d inp; s!"ok {out.length} {fnv out}"
+       | none => "bad-op")
+    | _ => "bad-op"
+
+def handleContainer (cmd : String) (a : Args) : String :=
+  match a.bytes? "in", a.nat? "cap" with
+  | some inp, some cap =>
+    if cmd == "xz.dec" then
+      match Xz.decode (a.nat? "multi" == some 1) inp cap with
+      | .ok data consumed blks =>
+        let re := if a.nat? "reenc" == some 1 then
+            (match Xz.parseStreamHeader inp with
+             | .ok (c, _) => if Xz.reassemble c blks.reverse == inp.take consumed then " 1" else " 0"
+             | .error _ => " 0")
+          else ""
+        s!"ok {data.length} {fnv data} {consumed}{re}"
+      | .err e => s!"err {e.name}"
+      | .capped => "capped"
+    else
+      match LzipFile.decode inp cap with
+      | .ok data consumed ms =>
+        let re := if a.nat? "reenc" == some 1 then
+            (if LzipFile.reassemble ms.reverse == inp.take consumed then " 1" else " 0") else ""
+        s!"ok {data.length} {fnv data} {consumed}{re}"
+      | .err e => s!"err {e.name}"
+      | .capped => "capped"
+  | _, _ => "bad-op"
+
 def handle (cmd : String) (a : Args) : String :=
   match cmd with
+  | "xz.dec" | "lzip.dec" => handleContainer cmd a
+  | "bcj.code" | "delta.enc" | "delta.dec" => handleFilter cmd a
   | "lzma2.dec" => handleLzma2Dec a
   | "lzma.dec" => handleLzmaDec a
   | "lzip.encdict" => match a.nat? "d" with
